@@ -21,6 +21,7 @@
                                 excluded kinds on the current code (known findings c07/revert-mismatch/…).
 -/
 import LemoProofs.Lemmas.JournalReplay
+import LemoProofs.C07Merge
 namespace LemoProofs.C07
 open LemoModel.Journal LemoProofs.JournalStep LemoProofs.JournalReplay
 
